@@ -201,7 +201,11 @@ def run_real(ws, schema, rec, item, loader_factory=None):
         o = project.exc_outcome(e)
         o["res"] = url_to_name(o.get("url"), base)
         return o, None
-    return {"r": "ok", "tree": project.proj_section(cfg, rec, top=True)}, (cfg, handler)
+    try:
+        tree = project.proj_section(cfg, rec, top=True)
+    except Exception as e:      # the returned object cannot even be read: that is an observation, not a harness failure
+        tree = {"unprojectable": "%s: %s" % (type(e).__name__, e)}
+    return {"r": "ok", "tree": tree}, (cfg, handler)
 
 
 # -- parallel replay ---------------------------------------------------------------------
@@ -260,7 +264,10 @@ def replay_all(chk, sc, outs, fn, procs=12, chunk=200):
 
 # -- sessions (C12, C13) ------------------------------------------------------------------
 def session_digest(schema):
-    d = project.digest_schema(schema)
+    try:
+        d = project.digest_schema(schema)
+    except Exception as e:      # a schema object that can no longer be read has certainly changed
+        return {"rest": "~unreadable: %s: %s~" % (type(e).__name__, e), "impl": [["~none~", []]]}
     impl = []
 
     def strip(t):
